@@ -33,6 +33,11 @@ type World struct {
 	byLoc   map[string]*ServerNode // by location (host name)
 	Clients map[string]*ClientNode
 
+	// Silent is closed when the world shuts down: it releases callers that
+	// hang on a peer that never answers.
+	Silent     chan struct{}
+	silentDone bool
+
 	// Nesting depth of server-to-server forwards per goroutine.
 	fwdMu    sync.Mutex
 	fwdDepth map[int64]int
@@ -83,7 +88,7 @@ const (
 )
 
 type HTTPAction struct {
-	Kind  int // 0 serve, 1 refuse, 2 timeout after Delay, 3 status 503
+	Kind  int // 0 serve, 1 refuse, 2 timeout after Delay, 3 status 503, 4 silent (accepts, never answers)
 	Delay time.Duration
 }
 
@@ -518,6 +523,20 @@ func (fabricTransport) RoundTrip(req *http.Request) (*http.Response, error) {
 		w.Fault("http.timeout")
 		time.Sleep(act.Delay)
 		return nil, &netError{msg: "dial tcp " + req.URL.Host + ": i/o timeout", timeout: true}
+	case 4:
+		// The peer accepts the connection and never says anything: the caller
+		// stays in its request until the world ends.
+		w.Fault("http.silent")
+		w.fwdMu.Lock()
+		if w.Silent == nil && !w.silentDone {
+			w.Silent = make(chan struct{})
+		}
+		ch := w.Silent
+		w.fwdMu.Unlock()
+		if ch != nil {
+			<-ch
+		}
+		return nil, &netError{msg: "read tcp " + req.URL.Host + ": connection reset by peer"}
 	case 3:
 		w.Fault("http.503")
 		return &http.Response{StatusCode: 503, Status: "503 Service Unavailable", Body: io.NopCloser(strings.NewReader("unavailable")), Header: http.Header{}, Request: req, Proto: "HTTP/1.1", ProtoMajor: 1, ProtoMinor: 1}, nil
